@@ -206,7 +206,10 @@ class _RangeIterator(Iterator[_ValueT]):
         batch_size = self._batch_size
         if self._batch_size > 1:
           batch_size = min(self.i + self._batch_size, self.stop) - self.i
-          self._cache.extend(self.data[self.i : self.i + batch_size])
+          # Read the whole batch before caching any of it: a lazily evaluated
+          # slice can fail midway and the batch is then read again.
+          batch = list(self.data[self.i : self.i + batch_size])
+          self._cache.extend(batch)
         else:
           self._cache.append(self.data[self.i])
         self.i += batch_size
